@@ -224,16 +224,34 @@ type RawSPS struct {
 	Vui                      RawVUI
 }
 
+// cropUnits returns CropUnitX and CropUnitY (ITU-T H.264 7.4.2.1.1):
+// they depend on ChromaArrayType and on frame_mbs_only_flag.
+func (sps *RawSPS) cropUnits() (unitX, unitY int) {
+	unitX, unitY = 1, 1
+	if sps.SeparateColourPlaneFlag == 0 { // ChromaArrayType == chroma_format_idc
+		switch sps.ChromaFormatIdc {
+		case 1: // 4:2:0
+			unitX, unitY = 2, 2
+		case 2: // 4:2:2
+			unitX = 2
+		}
+	}
+	unitY *= 2 - int(sps.FrameMbsOnlyFlag)
+	return
+}
+
 // Width 视频宽度（像素）
 func (sps *RawSPS) Width() int {
-	w := (sps.PicWidthInMbsMinus1+1)*16 - sps.FrameCropLeftOffset*2 - sps.FrameCropRightOffset*2
-	return int(w)
+	unitX, _ := sps.cropUnits()
+	return (int(sps.PicWidthInMbsMinus1)+1)*16 -
+		unitX*(int(sps.FrameCropLeftOffset)+int(sps.FrameCropRightOffset))
 }
 
 // Height 视频高度（像素）
 func (sps *RawSPS) Height() int {
-	h := (2-uint16(sps.FrameMbsOnlyFlag))*(sps.PicHeightInMapUnitsMinus1+1)*16 - sps.FrameCropTopOffset*2 - sps.FrameCropBottomOffset*2
-	return int(h)
+	_, unitY := sps.cropUnits()
+	return (2-int(sps.FrameMbsOnlyFlag))*(int(sps.PicHeightInMapUnitsMinus1)+1)*16 -
+		unitY*(int(sps.FrameCropTopOffset)+int(sps.FrameCropBottomOffset))
 }
 
 // FrameRate Video frame rate
